@@ -300,6 +300,7 @@ def check(ctx):
     # W7: the selector answers from the CURRENT membership (C15.N1/N2 re-evaluated here: nodes_selector.rs is one of C06's anchors)
     import c15
     n0 = len(ctx.obs)
-    c15.check_actor(ctx, facts)
+    c15.check_actor(ctx, facts, rule='C06.W7.SEM')
     for o in ctx.obs[n0:]:
-        o.rule = 'C06.W7'
+        if not o.rule.startswith('C06.'):
+            o.rule = 'C06.W7'
